@@ -301,6 +301,13 @@ theorem skipQuestions_rout {msg : Bytes} {r : Reader} (hb : Base msg r) :
 def MarkerAt (r : Reader) (m : Marker) : Prop :=
   r.cur.pos = m.rdataPos ∧ m.section_ < 3 ∧ (r.tr.sec m.section_).read < (r.tr.sec m.section_).total
 
+/-- the owner-name part of a record-header result: `record_header_ref` returns a reference (a cursor
+    inside the message) -/
+def HNameOK (msg : Bytes) : HKind → HName → Prop
+  | .ref, .ref c => Cur.OK msg c
+  | .ref, _ => False
+  | _, _ => True
+
 theorem rawMarker_rout {msg : Bytes} {r : Reader} (hr : RInv msg r) (pos s : Nat) :
     ROut (r.rawMarker msg pos s)
       (fun m r' => RInv msg r' ∧ r'.tr = r.tr ∧ r'.done = r.done ∧ r'.cur.pos = m.rdataPos ∧ m.section_ = s)
@@ -328,7 +335,7 @@ theorem rawMarker_rout {msg : Bytes} {r : Reader} (hr : RInv msg r) (pos s : Nat
 
 theorem headerImpl_rout {msg : Bytes} {r : Reader} (hb : Base msg r) (k : HKind) :
     ROut (r.headerImpl msg k)
-      (fun x r' => Base msg r' ∧ r'.done = r.done ∧ MarkerAt r' x.2)
+      (fun x r' => Base msg r' ∧ r'.done = r.done ∧ MarkerAt r' x.2 ∧ HNameOK msg k x.1)
       (fun e r' => Base msg r' ∧ r'.done = r.done ∧ NotOU e) := by
   unfold Reader.headerImpl Reader.calcSection
   have hns := nextSection_facts r.tr r.cur.pos
@@ -349,7 +356,7 @@ theorem headerImpl_rout {msg : Bytes} {r : Reader} (hb : Base msg r) (k : HKind)
       have hc1 : CSane t' := hb.2.congr hsec hqd
       -- the name step
       have hname : ∀ (x : Res HName × Reader),
-          ROut x (fun _ r2 => RInv msg r2 ∧ r2.tr = t' ∧ r2.done = r.done)
+          ROut x (fun hn r2 => RInv msg r2 ∧ r2.tr = t' ∧ r2.done = r.done ∧ HNameOK msg k hn)
             (fun e r2 => RInv msg r2 ∧ r2.tr = t' ∧ r2.done = r.done ∧ NotOU e) →
           ROut (match x with
             | (.ok hn, r2) =>
@@ -361,13 +368,13 @@ theorem headerImpl_rout {msg : Bytes} {r : Reader} (hb : Base msg r) (k : HKind)
             | (.err e, r2) => (.err e, r2)
             | (.panic p, r2) => (.panic p, r2)
             | (.ub, r2) => (.ub, r2))
-            (fun x r' => Base msg r' ∧ r'.done = r.done ∧ MarkerAt r' x.2)
+            (fun x r' => Base msg r' ∧ r'.done = r.done ∧ MarkerAt r' x.2 ∧ HNameOK msg k x.1)
             (fun e r' => Base msg r' ∧ r'.done = r.done ∧ NotOU e) := by
         intro x hx
         obtain ⟨res, r2⟩ := x
         cases res with
         | ok hn' =>
-          obtain ⟨hi2, ht2, hd2⟩ := hx
+          obtain ⟨hi2, ht2, hd2, hk2⟩ := hx
           simp only
           have hm := rawMarker_rout hi2 r.cur.pos s
           cases hrm : r2.rawMarker msg r.cur.pos s with
@@ -376,7 +383,7 @@ theorem headerImpl_rout {msg : Bytes} {r : Reader} (hb : Base msg r) (k : HKind)
             cases res3 with
             | ok m =>
               obtain ⟨hi3, ht3, hd3, hp3, hs3'⟩ := hm
-              refine ⟨⟨hi3, by rw [ht3, ht2]; exact hc1⟩, by rw [hd3, hd2], hp3, by rw [hs3']; exact hs3, ?_⟩
+              refine ⟨⟨hi3, by rw [ht3, ht2]; exact hc1⟩, by rw [hd3, hd2], ⟨hp3, by rw [hs3']; exact hs3, ?_⟩, hk2⟩
               simp only
               rw [ht3, ht2, hs3', hsec]
               exact hlt
@@ -399,7 +406,7 @@ theorem headerImpl_rout {msg : Bytes} {r : Reader} (hb : Base msg r) (k : HKind)
         | mk res r2 =>
           rw [hs] at hskip
           cases res with
-          | ok v => exact ⟨hskip.1, hskip.2.1, hskip.2.2.1⟩
+          | ok v => exact ⟨hskip.1, hskip.2.1, hskip.2.2.1, trivial⟩
           | err e => exact hskip
           | panic p => exact hskip
           | ub => exact hskip
@@ -410,7 +417,7 @@ theorem headerImpl_rout {msg : Bytes} {r : Reader} (hb : Base msg r) (k : HKind)
         | mk res r2 =>
           rw [hs] at hskip
           cases res with
-          | ok v => exact ⟨hskip.1, hskip.2.1, hskip.2.2.1⟩
+          | ok v => exact ⟨hskip.1, hskip.2.1, hskip.2.2.1, hb.1.1⟩
           | err e => exact hskip
           | panic p => exact hskip
           | ub => exact hskip
@@ -421,18 +428,19 @@ theorem headerImpl_rout {msg : Bytes} {r : Reader} (hb : Base msg r) (k : HKind)
         | mk res r2 =>
           rw [hs] at hread
           cases res with
-          | ok v => exact ⟨hread.1, hread.2.1, hread.2.2.1⟩
+          | ok v => exact ⟨hread.1, hread.2.1, hread.2.2.1, trivial⟩
           | err e => exact hread
           | panic p => exact hread
           | ub => exact hread
 
 theorem recordHeader_rout {msg : Bytes} {r : Reader} (hb : Base msg r) (k : HKind) :
-    ROut (r.recordHeader msg k) (fun x r' => Base msg r' ∧ MarkerAt r' x.2) (fun _ r' => Base msg r') := by
+    ROut (r.recordHeader msg k) (fun x r' => Base msg r' ∧ r'.done = r.done ∧ MarkerAt r' x.2 ∧ HNameOK msg k x.1)
+      (fun _ r' => Base msg r') := by
   unfold Reader.recordHeader
   split
   · exact hb
   · apply markDone_rout
-    exact (headerImpl_rout hb k).mono (fun a r' h => ⟨h.1, h.2.2⟩) (fun e r' h => h.1)
+    exact (headerImpl_rout hb k).mono (fun a r' h => h) (fun e r' h => h.1)
 
 /-- the tail of every data call -/
 theorem finishData_rout {α} {msg : Bytes} {r : Reader} (m : Marker) {x : Res α × Reader} (hc : CSane r.tr)
@@ -547,7 +555,7 @@ theorem skipSectionImpl_rout {msg : Bytes} (s : Nat) (hs : s < 3) (fuel : Nat) {
         cases res with
         | ok x =>
           obtain ⟨hn, m⟩ := x
-          obtain ⟨hb1, hd1, hm1⟩ := h1
+          obtain ⟨hb1, hd1, hm1, _⟩ := h1
           simp only
           have h2 := skipDataImpl_rout hb1 m hm1
           cases hsd : r1.skipDataImpl m with
@@ -746,7 +754,7 @@ theorem step_sane {msg : Bytes} {r : Reader} {p : Option Marker} (hS : Sane msg 
         intro m' hm'
         simp only [mapVal, C09.nextPend, Option.some.injEq] at hm'
         subst hm'
-        exact h.2
+        exact h.2.2.1
       | err e => exact ⟨trivial, h, fun m hm => by simp [mapVal, C09.nextPend] at hm⟩
       | panic q => exact h.elim
       | ub => exact h.elim
